@@ -1,6 +1,7 @@
 """C05 -- spectral binning is an overlap-weighted mean of the native spectrum."""
 import z3
 from pyvc.unit import Unit, ObjSpec, Lemma, Bounded
+from pyvc.core import to_int
 
 
 # ------------------------------------------------------------------ compute_bin_edges
@@ -154,6 +155,240 @@ def _linear(c):
 
 
 Lemma('C05', 'weighted_mean_linear_and_constant_preserving', _linear, doc='sum_j w_j (a f_j + b g_j) = a sum w f + b sum w g; sum w k = k sum w')
+
+
+# ------------------------------------------------------------------ FluxBinner.bindown: the overlap-weighted mean, bin by bin
+# Native bins after sorting by centre: [MIN_j, MAX_j] = centre -+ width/2, j = 0..N-1; target bin q: [lo_q, hi_q].
+# ST(q) = number of native bins wholly below the target bin (MAX_j <= lo_q), SP(q) = number of j >= 1 with MIN_j <= hi_q:
+# the window [min(ST,N-1), min(SP,N-1)] is exactly what np.searchsorted selects; ST / SP are a definitional
+# extension (the least-number principle gives their existence for non-decreasing MAX / MIN).
+def _fb_spec(c, MIN, MAX, F, G, Wd, N, B):
+    I = z3.IntSort()
+    lo = lambda q: G[q] - Wd[q] / 2
+    hi = lambda q: G[q] + Wd[q] / 2
+    if c.mode == 'conc':
+        def ST(q):
+            return sum(1 for j in range(N) if MAX[j] <= lo(q))
+
+        def SP(q):
+            return sum(1 for j in range(1, N) if MIN[j] <= hi(q))
+    else:
+        ST, SP = c.func('ST', I, I), c.func('SP', I, I)
+    srt = None
+    if c.mode == 'sym':
+        # the counts exist (and are unique) when the bin edges are non-decreasing: the axioms are guarded by exactly that
+        srt = z3.And(c.Forall(0, N - 1, lambda j: MAX[j] <= MAX[j + 1]), c.Forall(0, N - 1, lambda j: MIN[j] <= MIN[j + 1]))
+    if c.mode == 'sym' and 'fb_axioms' not in c.uf:
+        c.uf['fb_axioms'] = srt
+        q, j = z3.Ints('q? j?')
+        inq = z3.And(srt, 0 <= q, q < to_int(B))
+        c.assumed.append(z3.ForAll([q], z3.Implies(inq, z3.And(0 <= ST(q), ST(q) <= to_int(N), 0 <= SP(q), SP(q) <= to_int(N) - 1)),
+                                   patterns=[ST(q)]))
+        c.assumed.append(z3.ForAll([q], z3.Implies(inq, z3.And(0 <= SP(q), SP(q) <= to_int(N) - 1)), patterns=[SP(q)]))
+        c.assumed.append(z3.ForAll([q, j], z3.Implies(z3.And(inq, 0 <= j, j < to_int(N)), (j < ST(q)) == (MAX[j] <= lo(q))),
+                                   patterns=[z3.MultiPattern(ST(q), MAX[j])]))
+        c.assumed.append(z3.ForAll([q, j], z3.Implies(z3.And(inq, 1 <= j, j < to_int(N)), (j - 1 < SP(q)) == (MIN[j] <= hi(q))),
+                                   patterns=[z3.MultiPattern(SP(q), MIN[j])]))
+
+    def start(q):
+        return c.Min(ST(q), N - 1)
+
+    def stop(q):
+        return c.Min(SP(q), N - 1)
+
+    def wt(q, j):
+        return (c.Min(hi(q), MAX[j]) - c.Max(MIN[j], lo(q))) / (hi(q) - lo(q))
+
+    def overl(q):
+        return c.And(lo(q) <= MAX[start(q)], MIN[stop(q)] <= hi(q))
+
+    def nwin(q):
+        return c.Max(stop(q) + 1 - start(q), 0)
+
+    def SW(q):
+        s = start(q)
+        return c.Sum(0, nwin(q), lambda i: wt(q, s + i))
+
+    def val(q):
+        s = start(q)
+        sw = SW(q)
+        return c.Sum(0, nwin(q), lambda i: wt(q, s + i) / sw * F[s + i])
+    if c.mode == 'sym':
+        srt = c.uf['fb_axioms']
+    def noise(q, E):
+        s = start(q)
+        sw = SW(q)
+        return c.sqrt(c.Sum(0, nwin(q), lambda i: wt(q, s + i) * wt(q, s + i) * (E[s + i] * E[s + i])) / sw / sw)
+    return dict(noise=noise, sorted=srt, ST=ST, SP=SP, lo=lo, hi=hi, start=start, stop=stop, wt=wt, overl=overl, nwin=nwin, SW=SW, val=val)
+
+
+def _fbd_params(c):
+    N, B = c.int('N'), c.int('B')
+    err = c.choice('errors')
+    return dict(self=ObjSpec('FluxBinner', _wngrid=c.array('g', (B,)), _wngrid_width=c.array('w', (B,))), wngrid=c.array('wn', (N,)),
+                spectrum=c.array('f', (N,)), grid_width=c.array('wd', (N,)), error=c.array('e', (N,)) if err else None)
+
+
+def _fbd_pre(c, v):
+    N, B = c.Len(v.wngrid), c.Len(v.self._wngrid)
+    wn, wd = v.wngrid, v.grid_width
+    return {'sizes': c.And(N >= 1, B >= 0, c.Len(v.spectrum) == N, c.Len(wd) == N, c.Len(v.self._wngrid_width) == B,
+                           (c.Len(v.error) == N) if v.error is not None else True),
+            'native_widths_non_negative': c.Forall(0, N, lambda i: wd[i] >= 0),
+            # distinct centres whose lower and upper edges are ordered like the centres (true for non-overlapping bins, and for
+            # the slightly overlapping bins np.diff-derived widths give on non-uniform grids)
+            'native_bin_edges_ordered_like_the_centres': c.Forall2((0, N), (0, N), lambda i, j: c.Implies(
+                c.And(i != j, wn[i] <= wn[j]), c.And(wn[i] < wn[j], wn[i] - wd[i] / 2 <= wn[j] - wd[j] / 2,
+                                                     wn[i] + wd[i] / 2 <= wn[j] + wd[j] / 2))),
+            'target_widths_positive': c.Forall(0, B, lambda q: v.self._wngrid_width[q] > 0)}
+
+
+def _fbd_sorted(c, v0):
+    pf, qf = c.last_perm
+    wn, wd, f = v0.wngrid, v0.grid_width, v0.spectrum
+
+    class _A:
+        def __init__(s_, fn):
+            s_.fn = fn
+
+        def __getitem__(s_, j):
+            return s_.fn(j)
+    return (_A(lambda j: wn[pf(j)] - wd[pf(j)] / 2), _A(lambda j: wn[pf(j)] + wd[pf(j)] / 2), _A(lambda j: f[pf(j)]))
+
+
+def _fbd_inv(c, v, v0, k):
+    N, B = c.Len(v0.wngrid), c.Len(v0.self._wngrid)
+    G, Wd = v0.self._wngrid, v0.self._wngrid_width
+    MIN, MAX, F = v.old_spect_min, v.old_spect_max, v.old_spect_flux
+    S = _fb_spec(c, MIN, MAX, F, G, Wd, N, B)
+    BS = v.bin_spectrum
+    sort = v.sorted_input
+    d = {'locals': c.And(c.Len(BS) == B, c.Len(MIN) == N, c.Len(MAX) == N, c.Len(F) == N, c.Len(v.new_spec_wn) == B,
+                         c.Len(v.new_spec_wn_min) == B, c.Len(v.new_spec_wn_max) == B,
+                         (v.error is None and v.bin_error is None) if v0.error is None else
+                         c.And(c.Len(v.bin_error) == B, c.Len(v.old_spect_err) == N)),
+         'target_bins': c.Forall(0, B, lambda q: c.And(v.new_spec_wn_min[q] == S['lo'](q), v.new_spec_wn_max[q] == S['hi'](q))),
+         'native_bins': c.Forall(0, N, lambda j: c.And(MIN[j] == v0.wngrid[sort[j]] - v0.grid_width[sort[j]] / 2,
+                                                       MAX[j] == v0.wngrid[sort[j]] + v0.grid_width[sort[j]] / 2,
+                                                       F[j] == v0.spectrum[sort[j]])),
+         'native_bins_sorted': c.And(c.Forall(0, N - 1, lambda j: c.And(MAX[j] <= MAX[j + 1], MIN[j] <= MIN[j + 1])),
+                                     c.Forall(0, N, lambda j: MIN[j] <= MAX[j])),
+         'todo': c.Forall(k, B, lambda q: BS[q] == 0)}
+    if v0.error is not None:
+        E, BE = v.old_spect_err, v.bin_error
+        d['native_errors'] = c.Forall(0, N, lambda j: E[j] == v0.error[sort[j]])
+        d['todo_errors'] = c.Forall(k, B, lambda q: BE[q] == 0)
+        row = lambda q: c.And(BS[q] == c.If(S['overl'](q), S['val'](q), 0), BE[q] == c.If(S['overl'](q), S['noise'](q, E), 0))
+    else:
+        row = lambda q: BS[q] == c.If(S['overl'](q), S['val'](q), 0)
+    done = c.Forall(0, k, row)
+    if c.mode == 'sym' and not getattr(c, 'assuming', False) and v.has('save_start') and len(getattr(c, 'ss_results', [])) >= 2:
+        last = z3.simplify(k - 1)
+        s1, s2 = c.ss_results[-2], c.ss_results[-1]           # what the two searchsorted calls of this iteration returned
+        ST, SP = S['ST'](last), S['SP'](last)
+        lo, hi = S['lo'](last), S['hi'](last)
+        Nn = to_int(N)
+        done = c.hint(done,
+                      c.And(v.wn_min == lo, v.wn_max == hi),
+                      # the searchsorted results are the spec counts (uniqueness of the least index for sorted arrays)
+                      c.And(0 <= last, last < to_int(B), 0 <= s1, s1 <= Nn, 0 <= s2, s2 <= Nn - 1), S['sorted'],
+                      z3.Implies(z3.And(0 <= s1, s1 < Nn), MAX[s1] > lo),
+                      c.pure(z3.Implies(s1 < ST, MAX[s1] <= lo), S['sorted'], 0 <= last, last < to_int(B), 0 <= s1, s1 <= Nn),
+                      c.pure(z3.And(0 <= ST, ST <= Nn, z3.Implies(ST < Nn, MAX[ST] > lo)), S['sorted'], 0 <= last, last < to_int(B)),
+                      z3.Implies(ST < s1, MAX[ST] <= lo), s1 == ST,
+                      z3.Implies(z3.And(0 <= s2, s2 < Nn - 1), MIN[s2 + 1] > hi),
+                      c.pure(z3.Implies(s2 < SP, MIN[s2 + 1] <= hi), S['sorted'], 0 <= last, last < to_int(B), 0 <= s2, s2 <= Nn - 1),
+                      c.pure(z3.And(0 <= SP, SP <= Nn - 1, z3.Implies(SP < Nn - 1, MIN[SP + 1] > hi)), S['sorted'], 0 <= last, last < to_int(B)),
+                      z3.Implies(SP < s2, MIN[SP + 1] <= hi), s2 == SP,
+                      c.And(v.save_start == S['start'](last), v.save_stop == S['stop'](last)),
+                      c.Forall(0, last, row), row(last), c.pure_ground(done, c.Forall(0, last, row), row(last), last >= 0), final_uses=1)
+    d['done'] = done
+    return d
+
+
+def _fbd_post(c, v0, v1, r):
+    N, B = c.Len(v0.wngrid), c.Len(v0.self._wngrid)
+    G, Wd = v0.self._wngrid, v0.self._wngrid_width
+    if c.mode == 'conc':
+        import numpy as np
+        p = np.argsort(np.array(v0.wngrid, dtype=float))
+        wn, wd, f = (np.array(x, dtype=float)[p] for x in (v0.wngrid, v0.grid_width, v0.spectrum))
+
+        class _L(list):
+            pass
+        MIN, MAX, F = list(wn - wd / 2), list(wn + wd / 2), list(f)
+        E = None if v0.error is None else list(np.array(v0.error, dtype=float)[p])
+    else:
+        MIN, MAX, F = _fbd_sorted(c, v0)
+        E = None
+        if v0.error is not None:
+            pf = c.last_perm[0]
+            E = type(F)(lambda j: v0.error[pf(j)])
+    S = _fb_spec(c, MIN, MAX, F, G, Wd, N, B)
+    out = r[1]
+    d = {'returns_grid_spectrum_errors_widths': c.And(c.Len(r[0]) == B, c.Len(out) == B, (r[2] is None) if v0.error is None else (c.Len(r[2]) == B),
+                                                      c.Len(r[3]) == B)}
+    if c.mode == 'bmc':
+        return d
+    # The claim is about target bins that overlap the native grid in positive length (total overlap SW > 0); what is
+    # stored for the others (0, or NaN where the code divides 0 by 0) is not part of the property.
+    def meets(q):
+        return c.And(S['overl'](q), S['nwin'](q) > 0, S['SW'](q) > 0) if c.mode != 'conc' else \
+            (S['overl'](q) and S['nwin'](q) > 0 and S['SW'](q) > 1e-12)
+    if c.mode == 'conc':
+        ok = True
+        for q in range(B):
+            if meets(q):
+                want = S['val'](q)
+                ok = ok and abs(out[q] - want) <= 1e-9 * max(1.0, abs(want))
+        d['overlap_weighted_mean_of_the_window'] = ok
+        if E is not None:
+            ok = True
+            for q in range(B):
+                if meets(q):
+                    want = S['noise'](q, E)
+                    ok = ok and abs(r[2][q] - want) <= 1e-9 * max(1.0, abs(want))
+            d['errors_with_the_same_weights_in_quadrature'] = ok
+        return d
+    d['overlap_weighted_mean_of_the_window'] = c.Forall(0, B, lambda q: c.Implies(meets(q), out[q] == S['val'](q)))
+    if E is not None:
+        d['errors_with_the_same_weights_in_quadrature'] = c.Forall(0, B, lambda q: c.Implies(meets(q), r[2][q] == S['noise'](q, E)))
+    return d
+
+
+def _fbd_native(c, p):
+    import numpy as np
+    from taurex.binning.fluxbinner import FluxBinner
+    o = FluxBinner.__new__(FluxBinner)
+    o._wngrid = np.array(p['self']['_wngrid'], dtype=float)
+    o._wngrid_width = np.array(p['self']['_wngrid_width'], dtype=float)
+    err = None if p['error'] is None else np.array(p['error'], dtype=float)
+    gw = None if p['grid_width'] is None else np.array(p['grid_width'], dtype=float)
+    r = o.bindown(np.array(p['wngrid'], dtype=float), np.array(p['spectrum'], dtype=float), grid_width=gw, error=err)
+    return r, p
+
+
+def _fbd_gen(rng):
+    N, B = rng.randint(1, 7), rng.randint(0, 5)
+    edges = sorted(rng.uniform(100, 1000) for _ in range(2 * N))
+    bins = [(edges[2 * i], edges[2 * i + 1]) for i in range(N)]
+    if rng.random() < 0.5:                       # contiguous bins
+        bins = [(edges[i], edges[i + 1]) for i in range(N)] if N + 1 <= len(edges) else bins
+    order = list(range(N))
+    if rng.random() < 0.5:
+        rng.shuffle(order)
+    wn = [(bins[i][0] + bins[i][1]) / 2 for i in order]
+    wd = [bins[i][1] - bins[i][0] for i in order]
+    g = sorted(rng.uniform(50, 1100) for _ in range(B))
+    return dict(N=N, B=B, wn=wn, wd=wd, f=[rng.uniform(0, 1) for _ in range(N)], g=g, w=[rng.uniform(1, 300) for _ in range(B)],
+                errors=rng.random() < 0.5, e=[rng.uniform(0.01, 0.2) for _ in range(N)])
+
+
+FBD = Unit('C05', FB + 'bindown', _fbd_params, pre=_fbd_pre, post=_fbd_post, invariants={0: _fbd_inv}, native=_fbd_native, gen=_fbd_gen,
+           cases=[{'errors': False}, {'errors': True}],
+           bounds=[dict(N=2, B=1)], safety=('index', 'sorted'), timeout_ms=30000, short='FluxBinner.bindown',
+           doc='1-D spectrum, native widths given, with and without errors: for every target bin the mean of the native values in the searchsorted window '
+               'weighted by the overlap lengths (zero when the bin does not meet the native grid), any order of the native points')
 
 
 # ------------------------------------------------------------------ bounded stand-ins (never counted as proved)
